@@ -3,8 +3,11 @@ import EG.Props.C01
 import EG.Props.C02
 import EG.Props.C03
 import EG.Props.C04
+import EG.Props.C05
 import EG.Props.C06
 import EG.Props.C07
 import EG.Props.C08
 import EG.Props.C09
+import EG.Props.C17
+import EG.Props.C18
 import EG.Props.C19
